@@ -364,3 +364,39 @@ func Harness_C02_stalled_peer() {
 	verif_Assert("C02.stall.prefix", c02Prefix(gotS, dT))
 	verif_Cover("C02.stall.done")
 }
+
+// A target (or source) connection attached to a bridge that was closed a moment earlier - the source
+// failed, the session is shutting down - while the bridge's lifecycle has not finished yet: the
+// lifecycle's own closing Close releases it too. Whatever the order of attach and the first Close,
+// both ends are closed once the lifecycle's Close has run; nobody is left holding an open tunnel
+// connection to a tunnel the server has forgotten.
+func Harness_C02_late_attach() {
+	verif_ClockSet(int64(1) << 60)
+	ctx, stop := context.WithCancel(context.Background())
+	defer stop()
+	src := newC02End(nil, nil, false, -1)
+	dst := newC02End(nil, nil, false, -1)
+	b := NewBridge(ctx, &BridgeConfig{TunnelID: "tun-1", MappingID: "pm1", SourceConn: src})
+	order := verif_Choose(3)
+	switch order {
+	case 0: // attach, then close
+		b.SetTargetConnection(c02TunnelConn{conn: dst})
+		verif_Assert("C02.late.close", b.Close() == nil)
+	case 1: // closed first, the target's tunnel-open arrives afterwards
+		verif_Assert("C02.late.close", b.Close() == nil)
+		b.SetTargetConnection(c02TunnelConn{conn: dst})
+		verif_Cover("C02.late.attached_after_close")
+	default: // both at once
+		verif_Spawn(func() { b.Close() })
+		verif_Spawn(func() { b.SetTargetConnection(c02TunnelConn{conn: dst}) })
+		verif_Quiesce()
+	}
+	// the lifecycle ends (as runBridgeLifecycle's deferred Close)
+	verif_Assert("C02.late.final_close", b.Close() == nil)
+	verif_Quiesce()
+	_, closedS := src.snapshot()
+	_, closedT := dst.snapshot()
+	verif_Assert("C02.late.source_closed", closedS)
+	verif_Assert("C02.late.target_closed", closedT)
+	verif_Cover("C02.late.done")
+}
